@@ -14,6 +14,8 @@
   * `quantize_fin`, `ceilDp_fin`, `floorDp_fin` : the three specification functions for `0 < c`,
       `e + dp = -K < 0` (the three-way shortcut on the digit count is absorbed)
   * `quantize_keep`, `ceilDp_keep`, `floorDp_keep` : `0 ≤ e + dp` leaves the value unchanged
+  * `cast_div_of_dvd`, `rndQ_of_dvd`, `exact_keep` : when `10^K ∣ c` the quantised magnitude is `c / 10^K`
+      quanta, which denotes the operand itself
 -/
 import D128.Proofs.SpecRound
 import D128.Proofs.RoundKernelTable
@@ -190,5 +192,35 @@ theorem floorDp_keep (dp : Int) (n : Bool) (c : Nat) (e : Int) (hc : 0 < c)
     (h : 0 ≤ e + dp) : Spec.floorDp dp (.fin n c e) = .fin n c e := by
   have hc0 : (c == 0) = false := by simp; omega
   simp only [Spec.floorDp, hc0, Bool.false_eq_true, if_false, ge_iff_le, h, if_true]
+
+/-! ## an operand that is already a multiple of the quantum -/
+
+theorem cast_div_of_dvd (c K : Nat) (h : 10 ^ K ∣ c) :
+    (c : ℚ) / (10 : ℚ) ^ K = ((c / 10 ^ K : Nat) : ℚ) := by
+  obtain ⟨t, rfl⟩ := h
+  have hpn : 0 < 10 ^ K := by positivity
+  rw [Nat.mul_div_cancel_left _ hpn]
+  push_cast; field_simp
+
+theorem rndQ_of_dvd (m : Mode) (n : Bool) (c K : Nat) (h : 10 ^ K ∣ c) :
+    RK.rndQ m n ((c : ℚ) / (10 : ℚ) ^ K) = c / 10 ^ K := by
+  rw [cast_div_of_dvd c K h, RK.rndQ_exact]
+
+/-- `c / 10^K` quanta `10^(-dp)` are the operand `c·10^e` itself when `10^K ∣ c` and `e + dp = -K` -/
+theorem exact_keep (n : Bool) (c : Nat) (e dp : Int) (K : Nat) (hc : 0 < c) (hcm : c ≤ Spec.Cmax)
+    (he1 : Spec.Emin ≤ e) (he2 : e ≤ Spec.Emax) (hK : e + dp = -(K : Int)) (h : 10 ^ K ∣ c) :
+    (Spec.exactOrInfS n ((c / 10 ^ K : Nat) : ℚ) (-dp)).same (.fin n c e) = true := by
+  have hpn : 0 < 10 ^ K := by positivity
+  have hmag : ((c / 10 ^ K : Nat) : ℚ) * (10 : ℚ) ^ (-dp) = (c : ℚ) * (10 : ℚ) ^ e := by
+    rw [← cast_div_of_dvd c K h]
+    have : -dp = e + (K : Int) := by omega
+    rw [this, zpow_add₀ (by norm_num), zpow_natCast]
+    field_simp
+  have hq : (0 : ℚ) < ((c / 10 ^ K : Nat) : ℚ) := by
+    have : 0 < c / 10 ^ K := Nat.div_pos (Nat.le_of_dvd hc h) hpn
+    exact_mod_cast this
+  obtain ⟨c', e', hv, hce, _⟩ := exactOrInfS_member n _ (-dp) hq ⟨c, e, hcm, he1, he2, hmag⟩
+  rw [hv]
+  exact same_fin_of_mag _ _ _ _ _ (hce.trans hmag)
 
 end Qz
